@@ -296,7 +296,7 @@ class Client:
 
     def __get_capabilities(self) -> bool:
         code, data, capabilities = self.__read_response()
-        if code == "NO":
+        if code == b"NO":
             return False
 
         for l in capabilities.splitlines():
